@@ -92,6 +92,12 @@ def check_case(p, ctx):
     p1, t1 = draw_p(p["pmode"]), draw_t(p["tmode"])
     p2, t2 = draw_p("random"), draw_t("random")
     grid, radius = p["grid"], p["radius"]
+    cmx = np.array([np.mean([v.x for v in c.vertices]) for c in frame.cells.values()])
+    cmy = np.array([np.mean([v.y for v in c.vertices]) for c in frame.cells.values()])
+    ext0 = max(np.ptp(cmx), np.ptp(cmy))
+    if ext0 == 0 or min(np.ptp(cmx), np.ptp(cmy)) <= 1e-6 * ext0:
+        ctx.skip("degenerate bounding box of cell centres")
+        return
     assign(frame, R, p1, t1)
     sig, centers, bins = tensors(frame, grid, radius)
     if len(sig) != grid * grid:
@@ -106,8 +112,11 @@ def check_case(p, ctx):
     rad = radius * math.sqrt(np.mean(list(area.values())) / math.pi)
     xs = np.array([q[0] for q in cm.values()])
     ys = np.array([q[1] for q in cm.values()])
-    xb = np.linspace(xs.min(), xs.max(), grid + 1) if xs.max() > xs.min() else None
-    yb = np.linspace(ys.min(), ys.max(), grid + 1) if ys.max() > ys.min() else None
+    # cell centres (nearly) on one axis-parallel line: the grid has no extent in the other direction (bin centres
+    # coincide) -- outside what the statement describes
+    ext = max(xs.max() - xs.min(), ys.max() - ys.min())
+    xb = np.linspace(xs.min(), xs.max(), grid + 1) if xs.max() - xs.min() > 1e-6 * ext else None
+    yb = np.linspace(ys.min(), ys.max(), grid + 1) if ys.max() - ys.min() > 1e-6 * ext else None
     if xb is None or yb is None:
         ctx.skip("degenerate bounding box of cell centres")
         return
